@@ -14,7 +14,7 @@ func init() {
 	props["C10"] = &propInfo{Level: "other", Explanation: "Decides structural necessary conditions of 'exact inverses, no silent truncation': (R10.1) every narrowing integer conversion in internal/decode (int64->int32/int16, int32->int16, uint64->uint32/uint16, uint32->uint16) is proved value-preserving by the bounds engine from the range guards that dominate it - a missing, off-by-one or wrap-prone guard leaves the obligation undischarged; (R10.2) the float64->float32 narrowing is reached only through magnitude guards that let exactly the infinities through: on every path the value is either within +-MaxFloat32 or math.IsInf with the matching sign was true, and both infinity paths do reach the conversion (IEEE: +Inf > MaxFloat32, so a guard without the exemption rejects a representable value); (R10.3) per scalar encoder the returned size equals the bytes grown and the type byte written is the type's own code. Not decided: value-level inversion over the whole domains; the varint arithmetic of the dependency.",
 		Trusted: []string{"bounds engine (see C02)", "math.IsInf(f, sign) semantics"}}
 
-	register(&Rule{ID: "R10.1", Props: []string{"C10"}, Floor: 6,
+	register(&Rule{ID: "R10.1", Props: []string{"C10"}, Floor: 4,
 		Doc: "guarded narrowing: every narrowing integer Convert in internal/decode is proved in range of the target type",
 		Run: runR10_1})
 	register(&Rule{ID: "R10.2", Props: []string{"C10"}, Floor: 1,
